@@ -8,7 +8,7 @@ RULE = ('rendering: every code for n_word<=6 (quick) / <=8 (thorough) and bounda
         'base_repr(2/8/10/16), scalars and 1-D / 2-D arrays, compared with the independent Python rendering of (code mod 2^n_word) and with the model strings; parsing round trip (n_word>=2): value mode for n_word<=52 and '
         'raw=True mode for every n_word up to 256 through constructor, call, set_val and from_bin, for binary and hex strings, scalars and 1-D arrays (2-D string arrays: see ASSUMPTIONS). '
         'Non-trivial = the code is negative or has its top bit set; distinct by full input.')
-ASSUMPTIONS = ['raw=True round trips feed the rendering without the binary point (what a point means for a raw code is not defined by the property)']
+ASSUMPTIONS = []
 
 def py_bin(n, c): return format(c % (1 << n), '0%db' % n)
 def py_hex(n, c): return format(c % (1 << n), '0%dX' % ((n + 3) // 4))
@@ -61,6 +61,11 @@ def run_cases(cases, res, stratum):
             rt = {}
             bstr = x.bin(prefix='0b'); hstr = x.hex()
             if n >= 2:
+                # the rendering WITH the binary point fed back as a raw code (the point is part of the rendered string; the digits are the code)
+                dstr = x.bin(frac_dot=True, prefix='0b')
+                yd = fx.Fxp(None, s, n, nf); yd.set_val(dstr, raw=True); rt[('set_val', 'bin_dot', True)] = lib.codes_of(yd)[0]
+                rt[('ctor', 'bin_dot', True)] = lib.codes_of(fx.Fxp(dstr, s, n, nf, raw=True))[0]
+                yd2 = fx.Fxp(None, s, n, nf); yd2.from_bin(x.bin(frac_dot=True), raw=True); rt[('from_bin', 'bin_dot', True)] = lib.codes_of(yd2)[0]
                 for route in ('ctor', 'call', 'set_val', 'from_bin'):
                     for kind, st in (('bin', bstr), ('hex', hstr)):
                         if route == 'from_bin' and kind == 'hex': continue
